@@ -29,6 +29,83 @@ type Case struct {
 	Pre    int             `json:"pre,omitempty"`
 	Ops    []refmodel.Op   `json:"ops,omitempty"`
 	Tree   *c03.Case       `json:"tree,omitempty"` // kind "pipeline": a fork history through the real fork resolver and pipeline
+	// kind "reload": two entries with key lengths KL and value lengths VL, saved, loaded, then written to under a limit
+	KL      [2]int `json:"klen,omitempty"`
+	VL      [2]int `json:"vlen,omitempty"`
+	Partial bool   `json:"partial,omitempty"`
+}
+
+var reloadCombo = refmodel.Combo{Policy: "set", VT: "bytes"}
+
+// evalReload: the size a store reports after it has been through a snapshot file is the base of all later accounting.
+// Two entries whose key and value lengths straddle the 1-byte/2-byte/3-byte length prefixes of the file format are
+// written, saved and loaded (full snapshot or partial file); the loaded size must be the sum of key and value lengths;
+// then, with the total limit set to exactly that size, a same-size overwrite must be accepted, a one-byte-longer one
+// refused, and after shrinking one value and deleting the other key the size must still be exact.
+func evalReload(cs Case) (*core.Fail, bool) {
+	env := envPool.Get().(*storedrv.Env)
+	defer envPool.Put(env)
+	c := reloadCombo
+	keys := [2]string{strings.Repeat("k", cs.KL[0]-1) + "0", strings.Repeat("k", cs.KL[1]-1) + "1"}
+	vals := [2]string{strings.Repeat("v", cs.VL[0]), strings.Repeat("w", cs.VL[1])}
+	want := uint64(len(keys[0]) + len(keys[1]) + len(vals[0]) + len(vals[1]))
+	desc := fmt.Sprintf("partial=%v key lengths %v value lengths %v", cs.Partial, cs.KL, cs.VL)
+	cfg := storedrv.NewConfig(c, 10, storedrv.MemStore())
+	cfg.VerifSetLimits(want, 1<<20, 1<<20)
+	block := []refmodel.Op{{T: "w", K: keys[0], V: vals[0], O: 0}, {T: "w", K: keys[1], V: vals[1], O: 1}}
+	var src, loaded store.Store
+	var file *store.FileInfo
+	if cs.Partial {
+		src, loaded, file = cfg.NewPartialKV(20, zap.NewNop()), cfg.NewPartialKV(20, zap.NewNop()), store.NewPartialFileInfo("st", 20, 30)
+	} else {
+		src, loaded, file = cfg.NewFullKV(zap.NewNop()), cfg.NewFullKV(zap.NewNop()), store.NewCompleteFileInfo("st", 10, 30)
+	}
+	if err := env.ApplyBlock(src, c, block); err != nil {
+		return core.Failf("reload:write-error", "%s: content of exactly the limit refused: %v", desc, err), true
+	}
+	if src.SizeBytes() != want {
+		return core.Failf("size-drift:write", "%s: SizeBytes()=%d before saving, want %d", desc, src.SizeBytes(), want), true
+	}
+	_, w, err := src.Save(30)
+	if err == nil {
+		err = w.Write(env.Ctx)
+	}
+	if err != nil {
+		return core.Failf("reload:save-error", "%s: %v", desc, err), true
+	}
+	if err := loaded.Load(env.Ctx, file); err != nil {
+		return core.Failf("reload:load-error", "%s: %v", desc, err), true
+	}
+	if _, real := histx.Raw(loaded); loaded.SizeBytes() != want || real != want {
+		return core.Failf("size-drift:load", "%s: after save+load SizeBytes()=%d, content %d bytes, want %d", desc, loaded.SizeBytes(), real, want), true
+	}
+	// same-size overwrite at the limit: accepted
+	if err := env.ApplyBlock(loaded, c, []refmodel.Op{{T: "w", K: keys[0], V: strings.Repeat("x", cs.VL[0]), O: 0}}); err != nil {
+		return core.Failf("limit:spurious-too-big-after-load", "%s limit %d: same-size overwrite refused: %v", desc, want, err), true
+	}
+	if _, real := histx.Raw(loaded); loaded.SizeBytes() != real || real != want {
+		return core.Failf("size-drift:write-after-load", "%s: after a same-size overwrite SizeBytes()=%d, content %d bytes, want %d", desc, loaded.SizeBytes(), real, want), true
+	}
+	// shrink one value to one byte and delete the other key
+	if err := env.ApplyBlock(loaded, c, []refmodel.Op{{T: "w", K: keys[0], V: "z", O: 0}, {T: "d", K: keys[1], O: 1}}); err != nil {
+		return core.Failf("limit:spurious-too-big-after-load", "%s: shrinking refused: %v", desc, err), true
+	}
+	want2 := uint64(len(keys[0]) + 1)
+	if _, real := histx.Raw(loaded); loaded.SizeBytes() != real || real != want2 {
+		return core.Failf("size-drift:write-after-load", "%s: after shrink+delete SizeBytes()=%d, content %d bytes, want %d", desc, loaded.SizeBytes(), real, want2), true
+	}
+	// grow back to the limit (accepted), then one byte more (refused)
+	room := int(want - want2)
+	if room > len(keys[1]) {
+		if err := env.ApplyBlock(loaded, c, []refmodel.Op{{T: "w", K: keys[1], V: strings.Repeat("y", room-len(keys[1])), O: 0}}); err != nil {
+			return core.Failf("limit:spurious-too-big-after-load", "%s limit %d: refilling to exactly the limit refused: %v", desc, want, err), true
+		}
+		err := env.ApplyBlock(loaded, c, []refmodel.Op{{T: "w", K: keys[0], V: "zz", O: 0}})
+		if err == nil || !store.StoreAboveMaxSizeRegexp.MatchString(err.Error()) {
+			return core.Failf("limit:late-or-missing-too-big-after-load", "%s limit %d: one byte above the limit accepted (err=%v, SizeBytes()=%d)", desc, want, err, loaded.SizeBytes()), true
+		}
+	}
+	return nil, true
 }
 
 // evalPipeline runs a C03 fork history and keeps the size verdict only (the other oracles of that run are C03's).
@@ -158,6 +235,8 @@ func Eval(cs Case) (*core.Fail, bool) {
 		return evalLimit(cs)
 	case "pipeline":
 		return evalPipeline(cs)
+	case "reload":
+		return evalReload(cs)
 	}
 	return core.Failf("harness:kind", "unknown kind %q", cs.Kind), false
 }
@@ -248,6 +327,20 @@ func Run(ctx *core.Ctx) int {
 		}) {
 			return
 		}
+		lens := []int{1, 2, 127, 128, 129, 300, 16383, 16384}
+		for _, k0 := range lens[:6] {
+			for _, k1 := range lens[:6] {
+				for _, v0 := range lens {
+					for _, v1 := range append([]int{0}, lens...) {
+						for _, partial := range []bool{false, true} {
+							if !emit(Case{Kind: "reload", KL: [2]int{k0, k1}, VL: [2]int{v0, v1}, Partial: partial}) {
+								return
+							}
+						}
+					}
+				}
+			}
+		}
 		for _, c := range limitCombos {
 			alpha := refmodel.OpAlphabet(c, 3, []uint64{0, 1})
 			for pre := range refmodel.PreStates(c) {
@@ -288,7 +381,7 @@ func Run(ctx *core.Ctx) int {
 	ctx.Cov["evaluations"] = st.Evaluations + int64(trans)
 	ctx.Cov["distinct_nontrivial"] = st.NonTrivial + int64(undos+merges)
 	ctx.Cov["exhaustive"] = true
-	ctx.Cov["rule"] = fmt.Sprintf("E4: per (policy,value type), BFS to depth %d over the histories of one real FullKV, events {apply one of 4 blocks (create / size-changing update / delete_prefix+create / create-delete-update in one block), undo the top block with its recorded deltas, merge one of 3 partial stores built through the host interface, save+load}; states deduplicated on (sorted content, SizeBytes, reversible stack); in every state SizeBytes() == sum(len key + len value) over Iter. Every transition is executed by the real store (traces_validated_against_impl = transitions). Side sweeps (E1): every 3-block squash chain x cuts x reload with the same invariant; with a 12-byte limit (hook VerifSetLimits) every operation sequence <=3 from 3 pre-states: Flush says 'became too big' iff the model's size exceeds the limit right after a create/update. Non-trivial: undo/merge transitions; limit cases at or above half the limit. Pipeline level: the C03 fork histories (every arrival sequence of <=5 blocks, 2-branch ladders <=10, 3-branch ladders <=7; thorough 7/13/9) through the real fork resolver and Pipeline.ProcessBlock with SizeBytes == keys+values after every new/undo step.", depth)
+	ctx.Cov["rule"] = fmt.Sprintf("E4: per (policy,value type), BFS to depth %d over the histories of one real FullKV, events {apply one of 4 blocks (create / size-changing update / delete_prefix+create / create-delete-update in one block), undo the top block with its recorded deltas, merge one of 3 partial stores built through the host interface, save+load}; states deduplicated on (sorted content, SizeBytes, reversible stack); in every state SizeBytes() == sum(len key + len value) over Iter. Every transition is executed by the real store (traces_validated_against_impl = transitions). Side sweeps (E1): every 3-block squash chain x cuts x reload with the same invariant; with a 12-byte limit (hook VerifSetLimits) every operation sequence <=3 from 3 pre-states: Flush says 'became too big' iff the model's size exceeds the limit right after a create/update; reload sweep: two entries with key lengths {1,2,127,128,129,300}^2 and value lengths {1,2,127,128,129,300,16383,16384} x {0,...} (the 1/2/3-byte length prefixes of the snapshot format), full and partial, saved and loaded: SizeBytes == keys+values after the load, a same-size overwrite at a limit equal to the content is accepted, shrink+delete keep the size exact, refilling to the limit is accepted and one byte more is refused. Non-trivial: undo/merge transitions; limit cases at or above half the limit. Pipeline level: the C03 fork histories (every arrival sequence of <=5 blocks, 2-branch ladders <=10, 3-branch ladders <=7; thorough 7/13/9) through the real fork resolver and Pipeline.ProcessBlock with SizeBytes == keys+values after every new/undo step.", depth)
 	ctx.Assume = []string{
 		"merge and save+load clear the reversible stack (squashing happens on final segments only)",
 		"limit sweep restricted to byte policies and integer types whose text encoding is canonical",
